@@ -1,4 +1,4 @@
-import DFV.Lemmas.C07Resample
+import DFV.Lemmas.C07Ex
 /-!
 # C07 — sub-selection, padding and resampling keep every value at its physical position
 
@@ -936,5 +936,278 @@ theorem resample_rejects (f : Fld) (n : List Int)
     · have : (n.any fun k => decide (k ≤ 0)) = true := by
         rw [List.any_eq_true]; exact ⟨k, hk, by simpa using hk0⟩
       exact ⟨_, by rw [if_pos this]⟩
+
+/-! ## In-region requests are accepted (exact arithmetic, meshes without subregions) -/
+
+/-- Every coordinate inside the region selects a plane: `Mesh.sel` returns the mesh with the
+axis removed and `Field.sel` returns a field on it. -/
+theorem sel_plane_accepts (f : Fld) (hf : FldWF f) (hs : f.mesh.subs = []) (h2 : 2 ≤ f.mesh.ndim)
+    (dim : String) (a : Nat) (hd : f.mesh.region.dim2index dim = .ok a) (x : Rat)
+    (h1 : f.mesh.region.lo a ≤ x) (hx2 : x ≤ f.mesh.region.hi a) :
+    selMesh f.mesh dim (.point x) = .ok (planeOf f.mesh a) ∧
+    ∃ g, selFld f dim (.point x) = .ok (.field g) := by
+  obtain ⟨hinv, hds, hvs⟩ := hf
+  have ha := dim2index_ndim hinv hd
+  have hconv := (selConvert_point f.mesh hinv dim a hd x h1 hx2).1
+  have hmesh : selMesh f.mesh dim (.point x) = .ok (planeOf f.mesh a) := by
+    unfold selMesh; rw [hconv]; exact selPlaneMesh_ok f.mesh hinv hs a ha h2 _
+  refine ⟨hmesh, ?_⟩
+  unfold selFld
+  rw [hconv, hmesh]
+  simp only
+  unfold mkFld
+  rw [if_neg (by
+    intro hcon
+    rcases hcon with hcon | hcon
+    · exact hcon (by show removeAt f.data.shape a = removeAt f.mesh.n a; rw [hds])
+    · exact hcon (by show removeAt f.valid.shape a = removeAt f.mesh.n a; rw [hvs]))]
+  exact ⟨_, rfl⟩
+
+/-- Every range inside the region (bounds in either order) is accepted by `Mesh.sel` and
+`Field.sel`. -/
+theorem sel_range_accepts (f : Fld) (hf : FldWF f) (hs : f.mesh.subs = [])
+    (dim : String) (a : Nat) (hd : f.mesh.region.dim2index dim = .ok a) (x y : Rat)
+    (h1 : f.mesh.region.lo a ≤ min x y) (h2 : max x y ≤ f.mesh.region.hi a) :
+    (∃ g, selMesh f.mesh dim (.range x y) = .ok g) ∧ ∃ g, selFld f dim (.range x y) = .ok (.field g) := by
+  obtain ⟨hinv, hds, hvs⟩ := hf
+  have ha := dim2index_ndim hinv hd
+  obtain ⟨hconv, hk, hk2⟩ := selConvert_range f.mesh hinv dim a hd x y h1 h2
+  obtain ⟨gm, hgm, hgn⟩ := selRangeMesh_ok f.mesh hinv hs a ha _ _ hk hk2
+  have hmesh : selMesh f.mesh dim (.range x y) = .ok gm := by
+    unfold selMesh; rw [hconv]; exact hgm
+  refine ⟨⟨gm, hmesh⟩, ?_⟩
+  unfold selFld
+  rw [hconv, hmesh]
+  simp only
+  unfold mkFld
+  have hsh : f.mesh.indexAx a (max x y) + 1 - f.mesh.indexAx a (min x y)
+      = f.mesh.indexAx a (max x y) - f.mesh.indexAx a (min x y) + 1 := by omega
+  rw [if_neg (by
+    intro hcon
+    rcases hcon with hcon | hcon
+    · exact hcon (by
+        show setAt f.data.shape a (f.mesh.indexAx a (max x y) + 1 - f.mesh.indexAx a (min x y)) = gm.n
+        rw [hgn, hds, hsh])
+    · exact hcon (by
+        show setAt f.valid.shape a (f.mesh.indexAx a (max x y) + 1 - f.mesh.indexAx a (min x y)) = gm.n
+        rw [hgn, hvs, hsh]))]
+  exact ⟨_, rfl⟩
+
+/-- Every box inside the region is accepted by `mesh[region]` and `field[region]`. -/
+theorem getitem_region_accepts (f : Fld) (hf : FldWF f) (item : Region) (hbox : BoxIn f.mesh item)
+    (hpm : item.pmax.length = f.mesh.ndim) :
+    (∃ g, getRegion f.mesh item = .ok g) ∧ ∃ g, getItem f (.region item) = .ok g := by
+  obtain ⟨sm, hsm, hsn⟩ := getRegion_ok f.mesh hf.1 item hbox hpm
+  obtain ⟨e1, _, _, _, _, _, _, _, e9⟩ := getRegion_inv f.mesh hf.1 item hbox sm hsm
+  exact ⟨⟨sm, hsm⟩, getItem_ok_of_block f hf (.region item) sm hsm e1 (blockLo f.mesh item)
+    (fun b => blockHi f.mesh item b - blockLo f.mesh item b + 1) (fun b _ => by omega)
+    (fun b hb => (e9 b hb).2.2.2) hsn⟩
+
+/-- Every subregion made of whole cells is accepted by `mesh[name]` and `field[name]`. -/
+theorem getitem_name_accepts (f : Fld) (hf : FldWF f) (name : String) (s : Region)
+    (hfind : findSub f.mesh.subs name = some s) (k1 k2 : Nat → Nat) (hal : SubAligned f.mesh s k1 k2) :
+    (∃ g, getName f.mesh name = .ok g) ∧ ∃ g, getItem f (.name name) = .ok g := by
+  obtain ⟨sm, hsm, hsn⟩ := getName_ok f.mesh hf.1 name s hfind k1 k2 hal
+  obtain ⟨_, e1, _, e3⟩ := getName_inv f.mesh hf.1 name s hfind k1 k2 hal sm hsm
+  exact ⟨⟨sm, hsm⟩, getItem_ok_of_block f hf (.name name) sm hsm e1 k1 (fun b => k2 b - k1 b)
+    (fun b hb => by have := (hal.2.2 b hb).1; omega) e3 hsn⟩
+
+/-- Non-negative pad widths on existing axes are accepted by `Mesh.pad` and `Field.pad`, in
+every mode. -/
+theorem pad_accepts (f : Fld) (hf : FldWF f) (pw : List PadW) (hnd : (pw.map (·.dim)).Nodup)
+    (hdims : ∀ w, w ∈ pw → ∃ a, f.mesh.region.dim2index w.dim = .ok a)
+    (hpos : ∀ w, w ∈ pw → 0 ≤ w.lo ∧ 0 ≤ w.hi)
+    (hbc : Mesh.bcOk f.mesh.region.dims f.mesh.bc.toLower = true) (mode : PadMode) :
+    (∃ g, padMesh f.mesh pw = .ok g) ∧ ∃ g, padFld f pw mode = .ok g := by
+  obtain ⟨hinv, hds, hvs⟩ := hf
+  have hsum : ∀ (sel : PadW → Int), (∀ w, w ∈ pw → 0 ≤ sel w) → ∀ b, 0 ≤ sumW f.mesh sel pw b := by
+    intro sel hsel b
+    clear hnd hdims hpos
+    induction pw with
+    | nil => simp [sumW]
+    | cons w rest ih =>
+      rw [sumW_cons]
+      have h1 := hsel w (List.mem_cons_self ..)
+      have h2 := ih (fun w' hw' => hsel w' (List.mem_cons_of_mem _ hw'))
+      cases f.mesh.region.dim2index w.dim with
+      | error e => simpa using h2
+      | ok a =>
+        simp only
+        split <;> omega
+  have hL := hsum (·.lo) (fun w hw => (hpos w hw).1)
+  have hH := hsum (·.hi) (fun w hw => (hpos w hw).2)
+  obtain ⟨gm, hgm, hgn⟩ := padMesh_ok f.mesh hinv pw hdims (fun b _ => hL b) (fun b _ => hH b) hbc
+  refine ⟨⟨gm, hgm⟩, ?_⟩
+  have hax : ∃ d, padAxes f.mesh pw = .ok d := by
+    clear hnd hpos hgm hgn hL hH hsum
+    induction pw with
+    | nil => exact ⟨_, rfl⟩
+    | cons w rest ih =>
+      obtain ⟨a, ha⟩ := hdims w (List.mem_cons_self ..)
+      obtain ⟨d, hd⟩ := ih (fun w' hw' => hdims w' (List.mem_cons_of_mem _ hw'))
+      exact ⟨(a, w.lo, w.hi) :: d, by unfold padAxes; rw [ha, hd]⟩
+  obtain ⟨d, hd⟩ := hax
+  have hw : widthOf d = fun b => (sumW f.mesh (·.lo) pw b, sumW f.mesh (·.hi) pw b) := by
+    funext b; exact widthOf_eq_sumW f.mesh pw d hnd hd b
+  have hneg : (d.any fun e => decide (e.2.1 < 0) || decide (e.2.2 < 0)) = false := by
+    clear hw hgm hgn hL hH hsum hnd hdims
+    induction pw generalizing d with
+    | nil => unfold padAxes at hd; injection hd with hd; subst hd; rfl
+    | cons w rest ih =>
+      unfold padAxes at hd
+      split at hd
+      · cases hd
+      · split at hd
+        · cases hd
+        · rename_i d' hd'
+          injection hd with hd; subst hd
+          have h1 := hpos w (List.mem_cons_self ..)
+          simp only [List.any_cons, Bool.or_eq_false_iff, decide_eq_false_iff_not, not_lt]
+          exact ⟨⟨h1.1, h1.2⟩, ih (fun w' hw' => hpos w' (List.mem_cons_of_mem _ hw')) d' hd'⟩
+  unfold padFld
+  rw [hd]
+  simp only
+  rw [hneg]
+  simp only [Bool.false_eq_true, if_false]
+  rw [hgm]
+  simp only
+  unfold mkFld
+  rw [if_neg (by
+    intro hcon
+    rcases hcon with hcon | hcon
+    · apply hcon
+      show (tab f.data.shape.length fun b => f.data.shape.getD b 0 + ((widthOf d) b).1.toNat + ((widthOf d) b).2.toNat) = gm.n
+      rw [hgn, hds, hw, inv_n_length hinv]; rfl
+    · apply hcon
+      show (tab f.valid.shape.length fun b => f.valid.shape.getD b 0 + ((widthOf d) b).1.toNat + ((widthOf d) b).2.toNat) = gm.n
+      rw [hgn, hvs, hw, inv_n_length hinv]; rfl)]
+  exact ⟨_, rfl⟩
+
+/-- Every list of positive cell counts of the right length is accepted by `Field.resample`. -/
+theorem resample_accepts (f : Fld) (hf : f.mesh.Inv) (n : List Int) (hl : n.length = f.mesh.ndim)
+    (hpos : ∀ k, k ∈ n → 0 < k) : ∃ g, resample f n = .ok g := by
+  unfold resample
+  rw [if_neg (by omega)]
+  have hany : (n.any fun k => decide (k ≤ 0)) = false := by
+    rw [List.any_eq_false]; intro k hk
+    have := hpos k hk
+    simp only [decide_eq_true_eq, not_le]; exact this
+  rw [hany]
+  simp only [Bool.false_eq_true, if_false]
+  unfold Mesh.mkN?
+  rw [if_neg (by rw [List.length_map]; exact fun h => h hl)]
+  have hz : ((n.map Int.toNat).any (· = 0)) = false := by
+    rw [List.any_eq_false]; intro k hk
+    obtain ⟨z, hz, rfl⟩ := List.mem_map.mp hk
+    have := hpos z hz
+    simp only [decide_eq_true_eq]; omega
+  rw [hz]
+  simp only [Bool.false_eq_true, if_false]
+  rw [emptyLower, bcOk_empty]
+  simp only [Bool.not_true, Bool.false_eq_true, if_false]
+  have hc : f.mesh.region.containsReg f.mesh.region = true := by
+    unfold Region.containsReg
+    rw [containsPt_of_exact f.mesh.region f.mesh.region.pmin rfl (fun a ha =>
+        ⟨le_refl _, (inv_lo_lt_hi hf ha).le⟩),
+      containsPt_of_exact f.mesh.region f.mesh.region.pmax (inv_pmax_length hf) (fun a ha =>
+        ⟨(inv_lo_lt_hi hf ha).le, le_refl _⟩)]
+    rfl
+  rw [hc]
+  simp only [Bool.not_true, Bool.false_eq_true, if_false]
+  unfold mkFld
+  rw [if_neg (by intro hcon; rcases hcon with hcon | hcon <;> exact hcon rfl)]
+  exact ⟨_, rfl⟩
+
+/-! ## Non-vacuity: every hypothesis used above is met by a concrete field
+
+`Ex.f0`: 4 × 2 cells of size 1 × 1 over `[0,4] × [0,2]`, tokens `10·i + j`, a chequered mask;
+`Ex.f1`: the same with the subregion `a = [1,3] × [0,1]`. -/
+section NonVacuity
+open Ex
+
+/-- hypotheses of `selConvert_point`, `sel_plane_accepts` (and so of `sel_plane_shape`,
+`sel_plane_pointwise`): the plane `x = 5/2` of `f0` -/
+example : ∃ g, selFld f0 "x" (.point (5/2)) = .ok (.field g) :=
+  (sel_plane_accepts f0 f0_wf rfl (by decide) "x" 0 (by decide) (5/2)
+    (by norm_num [f0, m0, reg, Region.lo]) (by norm_num [f0, m0, reg, Region.hi])).2
+
+/-- … and it is not trivial: the selected layer is cell 2, not cell 0 -/
+example : f0.mesh.indexAx 0 (5/2) = 2 :=
+  indexAx_eq_of_bounds f0.mesh 0 _ 2 (by decide) (inv_cell_pos f0_wf.1 (by decide))
+    (by norm_num [f0, m0, reg, Region.lo, Mesh.cellAt, Mesh.nAt, Region.edge, Region.hi])
+    (by norm_num [f0, m0, reg, Region.lo, Mesh.cellAt, Mesh.nAt, Region.edge, Region.hi])
+
+/-- hypothesis of `sel_centre_pointwise`: the central plane along `y` -/
+example : ∃ g, selFld f0 "y" .centre = .ok (.field g) := by
+  rw [show selFld f0 "y" .centre = selFld f0 "y" (.point 1) from by
+    unfold selFld selMesh
+    rw [selConvert_centre f0.mesh f0_wf.1 "y" 1 (by decide)]
+    norm_num [f0, m0, reg, Region.lo, Region.hi]]
+  exact (sel_plane_accepts f0 f0_wf rfl (by decide) "y" 1 (by decide) 1
+    (by norm_num [f0, m0, reg, Region.lo]) (by norm_num [f0, m0, reg, Region.hi])).2
+
+/-- hypotheses of `selConvert_range`, `sel_range_shape`, `sel_range_pointwise`: bounds given
+in descending order -/
+example : (∃ g, selMesh f0.mesh "x" (.range (7/2) (1/2)) = .ok g) ∧
+    ∃ g, selFld f0 "x" (.range (7/2) (1/2)) = .ok (.field g) :=
+  sel_range_accepts f0 f0_wf rfl "x" 0 (by decide) (7/2) (1/2)
+    (by norm_num [f0, m0, reg, Region.lo]) (by norm_num [f0, m0, reg, Region.hi])
+
+/-- hypothesis of `sel_outside_rejected`: `x = 9/2` is outside `[0, 4]` -/
+example : ∃ e, selFld f0 "x" (.point (9/2)) = .error e :=
+  (sel_outside_rejected f0 "x" (.point (9/2)) (Or.inr (Or.inr (Or.inl ⟨0, 9/2, by decide, rfl,
+    Or.inr (by norm_num [f0, m0, reg, Region.hi])⟩)))).2.2
+
+/-- hypotheses of `getRegion_smallest`, `getitem_region_pointwise`: an arbitrary box -/
+example : BoxIn f0.mesh box ∧ (∃ g, getRegion f0.mesh box = .ok g) ∧ ∃ g, getItem f0 (.region box) = .ok g :=
+  ⟨box_in, getitem_region_accepts f0 f0_wf box box_in rfl⟩
+
+/-- hypotheses of `getRegion_aligned_exact`, `region2slices_spec`, `getitem_name_pointwise`:
+the subregion `a` consists of whole cells -/
+example : SubAligned f1.mesh s0 k1 k2 ∧ findSub f1.mesh.subs "a" = some s0 ∧
+    ∃ g, getItem f1 (.name "a") = .ok g :=
+  ⟨s0_aligned, rfl, (getitem_name_accepts f1 f1_wf "a" s0 rfl k1 k2 s0_aligned).2⟩
+
+example : region2slices m1 s0 = .ok [(1, 3), (0, 1)] :=
+  (region2slices_spec m1 m1_inv s0 k1 k2 s0_aligned).1
+
+/-- hypothesis of `getitem_outside_rejected` -/
+example : ∃ e, getItem f1 (.name "b") = .error e :=
+  (getitem_outside_rejected f1 (.name "b") (Or.inl ⟨"b", rfl, by decide⟩)).2
+
+/-- hypotheses of `pad_counts`, `pad_rule`, `pad_inside_pointwise`: pad x by (1, 2), y by (0, 1) -/
+example (mode : PadMode) : (pw0.map (·.dim)).Nodup ∧ (∃ g, padMesh f0.mesh pw0 = .ok g) ∧
+    ∃ g, padFld f0 pw0 mode = .ok g :=
+  ⟨by decide, pad_accepts f0 f0_wf pw0 (by decide)
+    (by
+      intro w hw
+      simp only [pw0, List.mem_cons, List.mem_nil_iff, or_false] at hw
+      rcases hw with rfl | rfl
+      · exact ⟨0, by decide⟩
+      · exact ⟨1, by decide⟩)
+    (by
+      intro w hw
+      simp only [pw0, List.mem_cons, List.mem_nil_iff, or_false] at hw
+      rcases hw with rfl | rfl <;> decide)
+    (by rw [show f0.mesh.bc = "" from rfl, emptyLower]; exact bcOk_empty _) mode⟩
+
+/-- the five modes at one position: axis of 4 cells padded by 3 in front, position 0
+(three cells before the source) -/
+example : padSrc .constant 4 3 0 = none ∧ padSrc .edge 4 3 0 = some 0 ∧ padSrc .wrap 4 3 0 = some 1 ∧
+    padSrc .symmetric 4 3 0 = some 2 ∧ padSrc .reflect 4 3 0 = some 3 := by decide
+
+/-- hypotheses of `resample_region`, `resample_pointwise`: 4 × 2 → 2 × 3 -/
+example : ∃ g, resample f0 [2, 3] = .ok g :=
+  resample_accepts f0 f0_wf.1 [2, 3] rfl (by decide)
+
+/-- hypothesis of `resample_id` -/
+example : ∃ g, resample f0 (f0.mesh.n.map Int.ofNat) = .ok g :=
+  resample_accepts f0 f0_wf.1 _ rfl (by decide)
+
+/-- hypothesis of `resample_rejects` -/
+example : ∃ e, resample f0 [2, 0] = .error e :=
+  resample_rejects f0 [2, 0] (Or.inr ⟨0, by decide, by decide⟩)
+
+end NonVacuity
 
 end DFV.C07
